@@ -6,7 +6,7 @@ import random
 from haiway import ctx
 
 from harness.legs import cfg_text, leg_m, leg_mutant, leg_r
-from harness.vloop import Falsy, VLoop
+from harness.vloop import Falsy, VLoop, elder_loop
 
 SPEC = "Timeout"
 MANIFEST = dict(
@@ -105,9 +105,16 @@ class TimeoutDriver:
         # the wrapper object is used once before the call under test (a call that ends normally at once): nothing of
         # that first call - a timer, a result, a callback - may be left to influence the second one
         self.warmup = "first"
+        # ... and that first call is made on ANOTHER event loop, one that stays open (a wrapper object is a module-level
+        # thing; a program may well run it on one loop and later, or meanwhile, on another): no loop may be remembered
+        elder = elder_loop()
+        first = elder.create_task(wrapped(1, k=2))
+        elder.quiesce()
+        self.warm_ok = first.done() and not first.cancelled() and first.exception() is None and first.result() == "warm"
         first = loop.create_task(wrapped(1, k=2))
         loop.quiesce()
-        self.warm_ok = first.done() and not first.cancelled() and first.exception() is None and first.result() == "warm"
+        self.warm_ok = self.warm_ok and first.done() and not first.cancelled() and first.exception() is None \
+            and first.result() == "warm"
         # ... and a second call through the same wrapper overlaps the call under test: it starts before it and ends
         # (normally) right after the call under test has started - two calls share nothing but the wrapped function
         self.warmup = "bystander"
